@@ -7,6 +7,8 @@ package assets
 //   R <GET|HEAD> <path hex|-> <range hex | - (empty value) | none> <flush 0|1>
 //        -> R <status | -1 = panic> <Content-Range hex|-> <Content-Length|-> <body hex|->
 //   N <path hex|->  -> N <normalizeAssetPath(path) hex>
+//   C <GET|HEAD> <path hex|-> <range hex | - | none> <If-None-Match hex | - (empty value) | none> <flush 0|1>
+//        -> C <status | -1> <ETag hex|-> <Content-Range hex|-> <body hex|->
 
 import (
 	"bufio"
@@ -43,9 +45,19 @@ func c39hex(s string) string {
 	return hex.EncodeToString([]byte(s))
 }
 
+var (
+	c39inm    string
+	c39hasInm bool
+	c39etag   string
+)
+
 func c39request(method, path, rng string, hasRange bool) (status int, cr, cl, body string) {
 	req := httptest.NewRequest(method, "/", nil)
 	req.URL.Path = path
+
+	if c39hasInm {
+		req.Header.Set("If-None-Match", c39inm)
+	}
 
 	if hasRange {
 		req.Header["Range"] = []string{rng}
@@ -61,6 +73,7 @@ func c39request(method, path, rng string, hasRange bool) (status int, cr, cl, bo
 
 	_ = AssetsHandler(&router.Session{ID: 1}, w, req)
 	res := w.Result()
+	c39etag = res.Header.Get("ETag")
 
 	return res.StatusCode, strings.Join(res.Header["Content-Range"], ","), strings.Join(res.Header["Content-Length"], ","), w.Body.String()
 }
@@ -109,6 +122,27 @@ func TestVerifC39(t *testing.T) {
 			}
 
 			fmt.Fprintf(w, "R %d %s %s %s\n", st, c39hex(cr), strings.ReplaceAll(cl, " ", ""), c39hex(body))
+		case "C":
+			if f[5] == "1" {
+				FlushAssetCache()
+			}
+
+			rng, has := "", f[3] != "none"
+			if has {
+				rng = c39unhex(f[3])
+			}
+
+			c39hasInm = f[4] != "none"
+			c39inm = ""
+			if c39hasInm {
+				c39inm = c39unhex(f[4])
+			}
+
+			c39etag = ""
+			st, cr, _, body := c39request(f[1], c39unhex(f[2]), rng, has)
+			c39hasInm = false
+
+			fmt.Fprintf(w, "C %d %s %s %s\n", st, c39hex(c39etag), c39hex(cr), c39hex(body))
 		case "N":
 			fmt.Fprintf(w, "N %s\n", c39hex(normalizeAssetPath(c39unhex(f[1]))))
 		}
